@@ -6,7 +6,10 @@ d=$1; wt=$2
 cmd=$(head -1 $d/demo.cpp 2>/dev/null || head -1 $d/demo.c || head -2 $d/demo.sh | tail -1); cmd=${cmd#// }; cmd=${cmd#//}; cmd=${cmd#/\* }; cmd=${cmd% \*/}; cmd=${cmd## }; export WT=$wt
 git -C $wt checkout -q -- . 
 # the first line is "compile && run" (paths as the author used them); its exit status is the demo's verdict
-run_demo(){ (cd $d && eval "$cmd" >/tmp/confirm_run.log 2>&1); return $?; }
+# if the line only compiles (no "&&"), the -o target is run afterwards
+run_demo(){ (cd $d && eval "$cmd" >/tmp/confirm_run.log 2>&1); rc=$?; [ $rc != 0 ] && return $rc
+  case "$cmd" in *"&&"*) return 0;; esac
+  exe=$(echo "$cmd" | sed -n 's/.*-o *\([^ ]*\).*/\1/p'); (cd $d && timeout 120 $exe >>/tmp/confirm_run.log 2>&1); return $?; }
 run_demo; a=$?
 git -C $wt apply $d/patch.diff || { echo "patch does not apply"; exit 2; }
 run_demo; b=$?
